@@ -155,6 +155,11 @@ func errClass(err error) string {
 
 func (s *MuxSim) resolve(op *MuxOp) int {
 	if op.H < 0 {
+		// A raw PID could be the PID of an automatic stream no PMT has revealed yet; the model
+		// could not tell which stream the call hits, so the call is not issued.
+		if s.unlearned() {
+			return -1
+		}
 		return int(op.PID)
 	}
 	if p, ok := s.PIDOf[op.H]; ok {
